@@ -31,6 +31,17 @@ int pipe_init(int *read, int *write)
     goto finish;
   }
 
+  // Keep our pipes out of the way of the child process standard streams.
+  r = handle_nonstd(&pair[0]);
+  if (r < 0) {
+    goto finish;
+  }
+
+  r = handle_nonstd(&pair[1]);
+  if (r < 0) {
+    goto finish;
+  }
+
   r = handle_cloexec(pair[0], true);
   if (r < 0) {
     goto finish;
